@@ -30,7 +30,8 @@ def run(ctx):
     q = ctx.tier == "quick"
     ctx.rule = ("all plans of 3 blocks over 10 size classes (0 .. 4 MiB) x 6 kinds (raw, literals, match 1 back, as far back as 65535, "
                 "into the start of the previous block, straddling the block boundary) enumerated by TLC, thinned by a seeded stride in "
-                "quick; seeded plans of 4..40 blocks with explicit offsets {1, block length, 65534, 65535}; x checksums x reader "
+                "quick; seeded plans of 4..40 blocks with explicit offsets {1, block length, 65534, 65535}; plans of odd-sized blocks with two "
+                "matches each (inside the block, then into the preceding blocks); x checksums x reader "
                 "configuration (concurrency 1/4, Read buffer sequences from {1, 4096, block, 2 x block}, WriteTo); distinct = distinct (plan, options, reader configuration)")
     b = vlib.build_harness()
     d = vlib.scratch("c16")
@@ -63,10 +64,22 @@ def run(ctx):
         blocks = []
         for i in range(n):
             size = rnd.choice([5, 100, 4096, 20000, 40000, 65535, 65536] + ([200000] if rnd.random() < 0.1 else []))
-            kind = rnd.choice(["raw", "lits", "moff", "moff", "mfar", "mstraddle", "mprev"])
+            kind = rnd.choice(["raw", "lits", "moff", "moff", "mfar", "mstraddle", "mprev", "m2"])
             blk = {"size": size, "kind": kind}
             if kind == "moff":
                 blk["off"] = rnd.choice([1, size, 65534, 65535, rnd.randrange(1, 65536)])
+            blocks.append(blk)
+        chosen.append(blocks)
+    # blocks of odd sizes (the Reader's window slice then has spare capacity) holding two matches each: one inside the
+    # block, then one whose source lies in the preceding blocks
+    for _ in range(60 if q else 2500):
+        blocks = []
+        for i in range(rnd.randrange(2, 13)):
+            size = rnd.choice([120, 333, 1000, 1000, 3000, 5000, 20000, 65536])
+            kind = rnd.choice(["m2", "m2", "m2", "raw", "lits", "mprev"])
+            blk = {"size": size, "kind": kind}
+            if kind == "m2" and rnd.random() < 0.4:
+                blk["off"] = rnd.choice([65535, 65534, 2000, 40000])
             blocks.append(blk)
         chosen.append(blocks)
     cases = []
@@ -89,8 +102,8 @@ def run(ctx):
     for i in range(120 if q else 1500):
         blocks = []
         for _ in range(rnd.randrange(1, 5)):
-            kind = rnd.choice(["raw", "lits", "m1", "mfar", "mprev", "mstraddle", "moff"])
-            blk = {"size": rnd.choice([0, 1, 5, 12, 13, 20, 40]), "kind": kind}
+            kind = rnd.choice(["raw", "lits", "m1", "mfar", "mprev", "mstraddle", "moff", "m2"])
+            blk = {"size": rnd.choice([0, 1, 5, 12, 13, 20, 40]) if kind != "m2" else 125, "kind": kind}
             if kind == "moff":
                 blk["off"] = rnd.randrange(1, 60)
             blocks.append(blk)
